@@ -260,6 +260,120 @@ def h_vfreebusy_real(li: int, wi: int) -> bool:
     """
     return run(body_vfreebusy_real, li, wi)
 
+
+# ------------------------------------------------------------------ the real parser, the real filter compiler, a corpus
+def _load_pristine_pair():
+    """Fresh copies of xandikos.icalendar and xandikos.caldav (the in-process ones carry the harness' value-object
+    substitutions): real icalendar parsing, real parse_filter, real CalendarFilter."""
+    import importlib
+    import sys
+    saved = {k: v for k, v in sys.modules.items() if k == "xandikos" or k.startswith("xandikos.")}
+    for k in list(saved):
+        del sys.modules[k]
+    try:
+        ical = importlib.import_module("xandikos.icalendar")
+        cdav = importlib.import_module("xandikos.caldav")
+    finally:
+        for k in [k for k in sys.modules if k == "xandikos" or k.startswith("xandikos.")]:
+            del sys.modules[k]
+        sys.modules.update(saved)
+    return ical, cdav
+
+
+_REAL_ICAL, _REAL_CALDAV = _load_pristine_pair()
+_NSC = "urn:ietf:params:xml:ns:caldav"
+
+
+def _vcal(inner, tz=b""):
+    return b"BEGIN:VCALENDAR\r\nVERSION:2.0\r\nPRODID:-//x//y//EN\r\n" + tz + inner + b"END:VCALENDAR\r\n"
+
+
+def _ev(x):
+    return b"BEGIN:VEVENT\r\nUID:u\r\nDTSTAMP:20200101T000000Z\r\n" + x + b"END:VEVENT\r\n"
+
+
+_TZB = (b"BEGIN:VTIMEZONE\r\nTZID:Europe/Berlin\r\nBEGIN:STANDARD\r\nDTSTART:19701025T030000\r\nTZOFFSETFROM:+0200\r\n"
+        b"TZOFFSETTO:+0100\r\nEND:STANDARD\r\nEND:VTIMEZONE\r\n")
+RC_BODIES = [
+    _vcal(_ev(b"DTSTART:20200101T100000Z\r\nDTEND:20200101T110000Z\r\nSUMMARY:Alpha\r\nCATEGORIES:work,home\r\n")),  # UTC 10-11
+    _vcal(_ev(b"DTSTART;VALUE=DATE:20200101\r\nSUMMARY:beta\r\n")),                                                  # all day
+    _vcal(_ev(b"DTSTART:20200101T100000\r\nDURATION:PT2H\r\nSUMMARY;LANGUAGE=en:Gamma\r\n")),                        # floating 10-12
+    _vcal(_ev(b"DTSTART;TZID=Europe/Berlin:20200101T120000\r\nDTEND;TZID=Europe/Berlin:20200101T130000\r\nSUMMARY:delta\r\n"), _TZB),  # 11-12 UTC
+    _vcal(b"BEGIN:VTODO\r\nUID:u\r\nDTSTAMP:20200101T000000Z\r\nDUE:20200101T120000Z\r\nSUMMARY:todo\r\nEND:VTODO\r\n"),
+    _vcal(b"BEGIN:VTODO\r\nUID:u\r\nDTSTAMP:20200101T000000Z\r\nSUMMARY:bare\r\nEND:VTODO\r\n"),
+    _vcal(b"BEGIN:VJOURNAL\r\nUID:u\r\nDTSTAMP:20200101T000000Z\r\nDTSTART;VALUE=DATE:20200102\r\nEND:VJOURNAL\r\n"),
+    _vcal(_ev(b"DTSTART:20200101T100000Z\r\nSUMMARY:instant\r\n")),                                                 # zero length at 10
+    # two journal entries, the first undated (DTSTART is optional there), the second on Jan 2
+    _vcal(b"BEGIN:VJOURNAL\r\nUID:u\r\nDTSTAMP:20200101T000000Z\r\nSUMMARY:undated\r\nEND:VJOURNAL\r\n"
+          b"BEGIN:VJOURNAL\r\nUID:u\r\nDTSTAMP:20200101T000000Z\r\nRECURRENCE-ID;VALUE=DATE:20200102\r\nDTSTART;VALUE=DATE:20200102\r\nEND:VJOURNAL\r\n"),
+]
+# filters: (component, kind, arguments); expectations derived by hand from RFC 4791 9.7 / 9.9 (server default zone UTC)
+RC_FILTERS = [
+    ("VEVENT", "range", ("20200101T090000Z", "20200101T103000Z")),
+    ("VEVENT", "range", ("20200101T110000Z", "20200101T120000Z")),
+    ("VEVENT", "range", ("20200102T000000Z", "20200103T000000Z")),
+    ("VTODO", "range", ("20200101T110000Z", "20200101T130000Z")),
+    ("VJOURNAL", "range", ("20200102T000000Z", "20200102T120000Z")),
+    ("VEVENT", "text", ("SUMMARY", "alpha")),
+    ("VEVENT", "text", ("CATEGORIES", "home")),
+    ("VEVENT", "param", ("DTSTART", "TZID")),
+    ("VEVENT", "undef", ("DTEND",)),
+    ("VEVENT", "range", ("20200101T113000Z", None)),
+]
+RC_EXPECT = ["TFFFFTTFFF", "TTFFFFFFTT", "TTFFFFFFTT", "FTFFFFFTFT", "FFFTFFFFFF", "FFFTFFFFFF", "FFFFTFFFFF", "TFFFFFFFTF",
+             "FFFFTFFFFF"]
+
+
+def _rc_filter(spec):
+    comp, kind, a = spec
+    f = ET.Element("{%s}filter" % _NSC)
+    top = ET.SubElement(f, "{%s}comp-filter" % _NSC)
+    top.set("name", "VCALENDAR")
+    c = ET.SubElement(top, "{%s}comp-filter" % _NSC)
+    c.set("name", comp)
+    if kind == "range":
+        t = ET.SubElement(c, "{%s}time-range" % _NSC)
+        if a[0]:
+            t.set("start", a[0])
+        if a[1]:
+            t.set("end", a[1])
+        return f
+    p_ = ET.SubElement(c, "{%s}prop-filter" % _NSC)
+    p_.set("name", a[0])
+    if kind == "text":
+        ET.SubElement(p_, "{%s}text-match" % _NSC).text = a[1]
+    elif kind == "param":
+        ET.SubElement(p_, "{%s}param-filter" % _NSC).set("name", a[1])
+    else:
+        ET.SubElement(p_, "{%s}is-not-defined" % _NSC)
+    return f
+
+
+def body_real_corpus(bi, fi):
+    """Real iCalendar bodies (UTC, all-day DATE, floating + DURATION, TZID with VTIMEZONE, VTODO with DUE only /
+    nothing, VJOURNAL, a zero-length event, two journal entries of which one is undated) through the REAL icalendar
+    parser, the REAL parse_filter and CalendarFilter.check, against answers worked out by hand from RFC 4791."""
+    from xv.core import picks, untraced
+    bi, fi = picks((bi, fi), (len(RC_BODIES), len(RC_FILTERS)))
+    with untraced():
+        import datetime as _real
+        import logging
+        cf = _REAL_ICAL.CalendarFilter(_real.timezone.utc)
+        _REAL_CALDAV.parse_filter(_rc_filter(RC_FILTERS[fi]), cf)
+        fobj = _REAL_ICAL.ICalendarFile([RC_BODIES[bi]], "text/calendar")
+        logging.disable(logging.CRITICAL)
+        got = bool(cf.check("x.ics", fobj))
+        want = RC_EXPECT[bi][fi] == "T"
+        return (got == want, "hit" if want else "miss")
+
+
+def h_real_corpus(bi: int, fi: int) -> bool:
+    """
+    pre: 0 <= bi < len(RC_BODIES) and 0 <= fi < len(RC_FILTERS)
+    post: _
+    """
+    return run(body_real_corpus, bi, fi)
+
 # ------------------------------------------------------------------ filter semantics (9.7.1 - 9.7.5)
 from xv.harness import _calq  # noqa: E402
 
@@ -522,6 +636,15 @@ HARNESSES = [
         assumptions=_TR_ASSUME,
         encodes=["xandikos.icalendar.apply_time_range_vfreebusy"],
     ),
+    Harness("real_corpus", h_real_corpus, body_real_corpus, classes=["hit", "miss"], budget={"quick": 45, "thorough": 90},
+            describe="9 real iCalendar bodies x 10 filters through the real icalendar parser, the real parse_filter and "
+                     "CalendarFilter.check, against answers worked out by hand from RFC 4791 9.7 / 9.9 "
+                     "(DATE, floating, UTC, TZID values; DURATION; VTODO rows; undated VJOURNAL; CATEGORIES; parameters); "
+                     "exhaustive over the corpus (no A6 here: nothing is stubbed)",
+            encodes=["xandikos.caldav.parse_filter", "xandikos.icalendar.CalendarFilter.check", "xandikos.icalendar.ICalendarFile.calendar",
+                     "xandikos.icalendar.apply_time_range_vevent", "xandikos.icalendar.apply_time_range_vtodo",
+                     "xandikos.icalendar.apply_time_range_vjournal", "xandikos.icalendar.as_tz_aware_ts",
+                     "xandikos.icalendar.TextMatcher.match"]),
     Harness("vfreebusy_real", h_vfreebusy_real, body_vfreebusy_real, classes=["hit", "miss"],
             budget={"quick": 30, "thorough": 60},
             describe="apply_time_range_vfreebusy on VFREEBUSY components parsed by the real icalendar library (5 layouts of "
